@@ -493,3 +493,28 @@ func (c *Ctx) obAccompanied(what string, f *ssa.Function, trig func(ssa.Instruct
 	})
 	return n
 }
+
+// obWriters: who may write a connection field. The allowed writers are the functions that write it on the tree the
+// rules were written against, each with a role in the property concerned; a write anywhere else changes the life
+// cycle the other rules reason about (cooperating edits in two functions are the usual way such state leaks).
+func (c *Ctx) obWriters(field string, why string, allowed ...string) {
+	n := 0
+	for _, site := range c.SitesPrefix("st:" + field) {
+		if !labelHas(c.stdLabels(site), "st:"+field) {
+			continue
+		}
+		n++
+		top := site.Parent()
+		for top.Parent() != nil {
+			top = top.Parent()
+		}
+		ok := false
+		for _, a := range allowed {
+			if funcName(top) == a {
+				ok = true
+			}
+		}
+		c.R.Ob(c.siteKey(site, field+" written only by its owners"), c.P.InstrPos(site), ok, fmt.Sprintf("%s is written in %s; its writers are %v (%s)", field, funcName(top), allowed, why))
+	}
+	c.R.Ob(field+"/has writers", "-", n >= 1, "no write of "+field+" found")
+}
